@@ -42,6 +42,8 @@ def scalar_key(x):
         return ("float", "nan")
     if isinstance(x, complex) and (math.isnan(x.real) or math.isnan(x.imag)):
         return ("complex", "nan")
+    if type(x) is int:
+        return ("int", x)       # no decimal conversion: the evaluator builds 10^5-digit ints
     return (type(x).__name__, repr(x))
 
 
